@@ -7,6 +7,7 @@ import (
 	"strings"
 
 	ebotel "github.com/jilio/ebu/otel"
+	"go.opentelemetry.io/otel/attribute"
 	"go.opentelemetry.io/otel/codes"
 	sdkmetric "go.opentelemetry.io/otel/sdk/metric"
 	"go.opentelemetry.io/otel/sdk/metric/metricdata"
@@ -20,18 +21,27 @@ type otelProbe struct {
 	obs    *ebotel.Observability
 	rec    *tracetest.SpanRecorder
 	reader *sdkmetric.ManualReader
+	sampled bool
 }
 
-func newOtelProbe() (*otelProbe, error) {
+// SpanAttributes makes two harness event types SpanAttributers (events that enrich their publish span)
+func (e U05) SpanAttributes() []attribute.KeyValue { return []attribute.KeyValue{attribute.Int("v", e.V)} }
+func (e T00) SpanAttributes() []attribute.KeyValue { return []attribute.KeyValue{attribute.Int("v", e.V)} }
+
+func newOtelProbe(sampled bool) (*otelProbe, error) {
 	rec := tracetest.NewSpanRecorder()
-	tp := sdktrace.NewTracerProvider(sdktrace.WithSpanProcessor(rec))
+	opts := []sdktrace.TracerProviderOption{sdktrace.WithSpanProcessor(rec)}
+	if !sampled {
+		opts = append(opts, sdktrace.WithSampler(sdktrace.NeverSample())) // spans are not recorded; the counters still count
+	}
+	tp := sdktrace.NewTracerProvider(opts...)
 	reader := sdkmetric.NewManualReader()
 	mp := sdkmetric.NewMeterProvider(sdkmetric.WithReader(reader))
 	o, err := ebotel.New(ebotel.WithTracerProvider(tp), ebotel.WithMeterProvider(mp))
 	if err != nil {
 		return nil, err
 	}
-	return &otelProbe{o, rec, reader}, nil
+	return &otelProbe{o, rec, reader, sampled}, nil
 }
 
 func spanKind(name string) string {
@@ -97,6 +107,10 @@ func (p *otelProbe) summary() string {
 				}
 			}
 		}
+	}
+	if !p.sampled {
+		return fmt.Sprintf("otelns publish=%d handler=%d herr=%d persist=%d perr=%d", sum["eventbus.publish.count"], sum["eventbus.handler.count"],
+			sum["eventbus.handler.errors"], sum["eventbus.persist.count"], sum["eventbus.persist.errors"])
 	}
 	return fmt.Sprintf("otel started=%d ended=%d notonce=%d publish=%d handler=%d herr=%d herrspans=%d persist=%d perr=%d edges=%s",
 		len(started), len(ended), twice, sum["eventbus.publish.count"], sum["eventbus.handler.count"], sum["eventbus.handler.errors"], herrSpans,
